@@ -205,7 +205,7 @@ func TestVerifC14Concurrent(t *testing.T) {
 			seen := map[[2]int]bool{}
 			buf := make([]byte, 20000)
 			for got < nw*per+1 {
-				srv.SetReadDeadline(time.Now().Add(2 * time.Second))
+				srv.SetReadDeadline(time.Now().Add(15 * time.Second))
 				n, err := srv.Read(buf)
 				if err != nil {
 					return
